@@ -64,7 +64,7 @@ _RE_DEPTH = re.compile(r'depth of the complete state graph search is (\d+)')
 _RE_INV = re.compile(r'Error: Invariant (\S+) is violated')
 _RE_ACTPROP = re.compile(r'Error: Action property (\S+) is violated')
 _RE_VERDICT = re.compile(r'<<\s*"VERDICT"')
-_RE_COV = re.compile(r'^<(\w+) line \d+, col \d+ to line \d+, col \d+ of module (\w+)>: (\d+):(\d+)')
+_RE_COV = re.compile(r'^<(\w+) line \d+, col \d+ to line \d+, col \d+ of module (\w+)(?: \([\d ]+\))?>: (\d+):(\d+)')
 
 
 def run_mc(module: str, cfg: str, *, workers: int = 16, timeout: int = 900, coverage: bool = True,
